@@ -15,12 +15,19 @@ import (
 // C11 / C12 — history BFS over {Put(batch), Merge(engine)} with canonical-state dedup;
 // invariants on every state, transition oracles on every Merge edge.
 
-type mergeOpts struct{ c11, c12 bool }
+type mergeOpts struct {
+	c11, c12 bool
+	// aliasTok: the engines use a custom tokenizer whose tokens are substrings of its input
+	aliasTok bool
+}
 
 func c11Part(r map[string]any) string { s, _ := r["p"].(string); return s }
 
-func c11IngestCfg() bs.BloomSearchEngineConfig {
+func c11IngestCfg(alias ...bool) bs.BloomSearchEngineConfig {
 	c := quietConfig()
+	if len(alias) > 0 && alias[0] {
+		c.Tokenizer = strings.Fields
+	}
 	c.RowDataCompression = bs.CompressionSnappy
 	c.BloomFalsePositiveRate = 0.01
 	c.PartitionFunc = c11Part
@@ -29,8 +36,8 @@ func c11IngestCfg() bs.BloomSearchEngineConfig {
 }
 
 // merge engines: differing compression, rate and limits over the same stores
-func c11MergeCfg(e int) bs.BloomSearchEngineConfig {
-	c := c11IngestCfg()
+func c11MergeCfg(e int, alias ...bool) bs.BloomSearchEngineConfig {
+	c := c11IngestCfg(alias...)
 	switch e {
 	case 0:
 		c.MaxRowGroupRows = 3
@@ -212,7 +219,11 @@ func c11Snapshot(w *World, withAnswers bool) (*c11snapshot, error) {
 // c11Replay builds the world reached by ops; for the last op, when it is a merge, it
 // returns the snapshot before it and the merge's outcome.
 func c11Replay(ops []c11op, o mergeOpts, res *CaseResult) (*World, bool) {
-	w, err := newWorld(c11IngestCfg(), nil)
+	var tok refmodel.Tokenizer
+	if o.aliasTok {
+		tok = strings.Fields
+	}
+	w, err := newWorld(c11IngestCfg(o.aliasTok), tok)
 	if err != nil {
 		res.Findings = append(res.Findings, fnd("setup", "%v", err))
 		return nil, false
@@ -227,7 +238,7 @@ func c11Replay(ops []c11op, o mergeOpts, res *CaseResult) (*World, bool) {
 			}
 			continue
 		}
-		cfg := c11MergeCfg(op.k)
+		cfg := c11MergeCfg(op.k, o.aliasTok)
 		eng, err := w.engineWith(cfg)
 		if err != nil {
 			res.Findings = append(res.Findings, fnd("setup", "%v", err))
@@ -496,6 +507,14 @@ func mergeCases(tier string, o mergeOpts) []Case {
 				r := c11BFSFrom([]c11op{{false, b}, {false, b2}}, depth, o)
 				return r
 			}})
+			if o.c11 && b <= b2 {
+				// the same search one level shallower with a tokenizer whose tokens alias its input
+				oa := o
+				oa.aliasTok = true
+				cs = append(cs, Case{ID: fmt.Sprintf("bfs-alias-tokenizer/P%d-P%d", b, b2), Run: func() CaseResult {
+					return c11BFSFrom([]c11op{{false, b}, {false, b2}}, depth-1, oa)
+				}})
+			}
 		}
 	}
 	return cs
@@ -556,7 +575,7 @@ func c11BFSFrom(root []c11op, depth int, o mergeOpts) CaseResult {
 func init() {
 	modes["C11"] = ModeSpec{
 		Cases: func(t string) []Case { return mergeCases(t, mergeOpts{c11: true}) },
-		Rule:  "breadth-first search over histories of Put(batch in 5-batch alphabet: partitions p/q/none, minmax key present/absent, floats, beyond-int64 values, duplicate rows) and Merge(by one of 3 differently configured engines) to the stated depth, successor = replay on fresh stores, states deduplicated by canonical form (ordered files > ordered blocks > partition, minmax, compression, row multiset); on every Merge edge: stored multiset, partition/minmax cover, 7 queries x {no prefilter, 7 prefilters} before vs after",
+		Rule:  "breadth-first search over histories of Put(batch in 5-batch alphabet: partitions p/q/none, minmax key present/absent, floats, beyond-int64 values, duplicate rows) and Merge(by one of 3 differently configured engines) to the stated depth, successor = replay on fresh stores, states deduplicated by canonical form (ordered files > ordered blocks > partition, minmax, compression, row multiset); on every Merge edge: stored multiset, partition/minmax cover, 7 queries x {no prefilter, 7 prefilters} before vs after; the search is repeated one level shallower with a custom tokenizer whose tokens are substrings of its input",
 	}
 	modes["C12"] = ModeSpec{
 		Cases: func(t string) []Case { return mergeCases(t, mergeOpts{c12: true}) },
